@@ -662,6 +662,14 @@ func (e *Exec) slice(ins *ssa.Slice) {
 
 type mapPart struct{ name, sort string }
 
+// opaqueMap: maps whose key type is not a single slot (interfaces, structs). Their contents are not modelled:
+// every read yields an arbitrary value, writes are not recorded (a sound over-approximation; such maps cannot
+// be ranged over or mentioned in contracts).
+func opaqueMap(mt types.Type) bool {
+	m, ok := mt.Underlying().(*types.Map)
+	return ok && len(slotsOf(m.Key())) != 1
+}
+
 func (e *Exec) mapParts(mt types.Type) []mapPart {
 	m := mt.Underlying().(*types.Map)
 	ks := slotsOf(m.Key())
@@ -686,16 +694,29 @@ func (e *Exec) mapDom(s *State, m Value) string {
 }
 
 func (e *Exec) mapHas(s *State, m Value, k Value) string {
+	if opaqueMap(m.T) {
+		return e.freshConst("omaphas", "Bool")
+	}
 	return "(select " + e.mapDom(s, m) + " " + k.S[0] + ")"
 }
 
 func (e *Exec) mapLen(s *State, m Value) string {
+	if opaqueMap(m.T) {
+		l := e.freshConst("omaplen", "Int")
+		e.axiom("(>= " + l + " 0)")
+		return l
+	}
 	p := e.mapParts(m.T)[1]
 	return "(select " + e.compTerm(s, p.name, p.sort) + " " + m.S[0] + ")"
 }
 
 func (e *Exec) mapLookup(s *State, m Value, k Value) Value {
 	mt := m.T.Underlying().(*types.Map)
+	if opaqueMap(m.T) {
+		v := e.freshValue("omapval", mt.Elem())
+		e.assumeWF(s, v, false)
+		return v
+	}
 	parts := e.mapParts(m.T)[2:]
 	has := e.mapHas(s, m, k)
 	sl := slotsOf(mt.Elem())
@@ -708,6 +729,9 @@ func (e *Exec) mapLookup(s *State, m Value, k Value) Value {
 }
 
 func (e *Exec) mapUpdate(s *State, m Value, k, v Value) {
+	if opaqueMap(m.T) {
+		return
+	}
 	parts := e.mapParts(m.T)
 	ref := m.S[0]
 	has := e.define("maphas", "Bool", e.mapHas(s, m, k))
@@ -723,6 +747,9 @@ func (e *Exec) mapUpdate(s *State, m Value, k, v Value) {
 }
 
 func (e *Exec) mapDelete(s *State, m Value, k Value) {
+	if opaqueMap(m.T) {
+		return
+	}
 	parts := e.mapParts(m.T)
 	ref := m.S[0]
 	has := e.define("maphas", "Bool", e.mapHas(s, m, k))
@@ -735,6 +762,9 @@ func (e *Exec) mapDelete(s *State, m Value, k Value) {
 
 func (e *Exec) makeMap(s *State, t types.Type) Value {
 	ref := e.alloc(s, types.NewArray(tInt, 0))
+	if opaqueMap(t) {
+		return Value{T: t, S: []string{ref}}
+	}
 	parts := e.mapParts(t)
 	k := e.mapKeySort(t)
 	dom := e.compTerm(s, parts[0].name, parts[0].sort)
